@@ -178,7 +178,7 @@ func Main(args []string) int {
 			}
 		}
 		r.Set("exhaustive_space_sets", len(pairs))
-		want := r.N(150, 3000)
+		want := r.N(400, 3000)
 		if want > len(pairs) {
 			want = len(pairs)
 		}
@@ -190,7 +190,7 @@ func Main(args []string) int {
 		}
 		// PRNG sets of 3-4 templates, depth <= 3, biased to shared prefixes
 		t3 := allTemplates(3)
-		for i := 0; i < r.N(60, 1200); i++ {
+		for i := 0; i < r.N(160, 1200); i++ {
 			k := 3 + rng.Intn(2)
 			var ps []string
 			base := ev.Pick(rng, t3)
